@@ -67,14 +67,22 @@ func (b *BlueprintGenericSparseR1C[E]) Solve(s Solver[E], inst Instruction) erro
 		u1 := s.GetCoeff(c.QL)
 		den := s.GetValue(c.QM, c.XB)
 		den = s.Add(den, u1)
-		den, ok = s.Inverse(den)
-		if !ok {
-			return errDivideByZero
-		}
 		v1 := s.GetValue(c.QR, c.XB)
 		v2 := s.GetValue(c.QO, c.XC)
 		num := s.Add(v1, v2)
 		num = s.Add(num, s.GetCoeff(c.QC))
+		den, ok = s.Inverse(den)
+		if !ok {
+			// L has a zero coefficient in this constraint: it holds for any L iff
+			// the remaining terms vanish (e.g. DivUnchecked(0, 0)); mirror the R1CS solver
+			// and assign 0.
+			if !num.IsZero() {
+				return errDivideByZero
+			}
+			var zero E
+			s.SetValue(c.XA, zero)
+			return nil
+		}
 		num = s.Mul(num, den)
 		num = s.Neg(num)
 		s.SetValue(c.XA, num)
@@ -82,16 +90,22 @@ func (b *BlueprintGenericSparseR1C[E]) Solve(s Solver[E], inst Instruction) erro
 		u2 := s.GetCoeff(c.QR)
 		den := s.GetValue(c.QM, c.XA)
 		den = s.Add(den, u2)
-		den, ok = s.Inverse(den)
-		if !ok {
-			return errDivideByZero
-		}
 
 		v1 := s.GetValue(c.QL, c.XA)
 		v2 := s.GetValue(c.QO, c.XC)
 
 		num := s.Add(v1, v2)
 		num = s.Add(num, s.GetCoeff(c.QC))
+		den, ok = s.Inverse(den)
+		if !ok {
+			// R has a zero coefficient in this constraint: see above.
+			if !num.IsZero() {
+				return errDivideByZero
+			}
+			var zero E
+			s.SetValue(c.XB, zero)
+			return nil
+		}
 		num = s.Mul(num, den)
 		num = s.Neg(num)
 		s.SetValue(c.XB, num)
@@ -112,7 +126,13 @@ func (b *BlueprintGenericSparseR1C[E]) Solve(s Solver[E], inst Instruction) erro
 		den := s.GetCoeff(c.QO)
 		den, ok = s.Inverse(den)
 		if !ok {
-			return errDivideByZero
+			// O has a zero coefficient in this constraint: see above.
+			if !o.IsZero() {
+				return errDivideByZero
+			}
+			var zero E
+			s.SetValue(c.XC, zero)
+			return nil
 		}
 		o = s.Mul(o, den)
 		o = s.Neg(o)
